@@ -1,7 +1,7 @@
 /-
-M-Proto proofs, part 5 (C17): end to end. For cleaned absolute module paths the command line
-plans writes only inside the output directory, unless a module's last path component minus
-".thrift" is ".." (finding D34) — with a given `--thrift-root` as well as with the common ancestor.
+M-Proto proofs, part 5 (C17): no false refusals. The repaired `modulePath` refuses package
+paths outside the Thrift root (finding D34, fixed); it still accepts every cleaned absolute
+module below the root the command line determines, except a file called "...thrift".
 -/
 import ThriftVerif.Proto.PlanProofs2
 import ThriftVerif.Proto.PathProofs4
@@ -29,14 +29,16 @@ theorem clean_absPath (cwd p : Str) (hc : isAbs cwd = true) : clean (absPath cwd
 def NotDotDotName (f : Str) : Prop :=
   (splitSlash (trimSuffix f thriftSuffix)).getLast? ≠ some dotdot
 
-/-- the module-path hypothesis of `cli_confined`, discharged. -/
-theorem cli_core_paths_no_dotdot (cwd : Str) (tr : Option Str) (mods : List ModIn)
+/-- no false refusals: for cleaned absolute module paths other than the root whose base
+name minus ".thrift" is not "..", the repaired `modulePath` (which refuses packages outside
+the root) succeeds under the root the command line determines, with or without `--thrift-root`. -/
+theorem cli_modules_accepted (cwd : Str) (tr : Option Str) (mods : List ModIn)
     (hcwd : isAbs cwd = true)
     (hmods : ∀ m ∈ mods, CleanAbs m.thriftPath ∧ NotDotDotName m.thriftPath)
     (hroot : ∀ m ∈ mods, cliRoot cwd tr mods ≠ some m.thriftPath) :
-    ∀ root, cliRoot cwd tr mods = some root → ∀ m ∈ mods, ∀ p,
-      modulePath root m.thriftPath = some p → ∀ c ∈ splitSlash p, c ≠ dotdot := by
-  intro root hr m hm p hp
+    ∀ root, cliRoot cwd tr mods = some root → ∀ m ∈ mods,
+      (modulePath root m.thriftPath).isSome = true := by
+  intro root hr m hm
   have hne : m.thriftPath ≠ root := fun e => hroot m hm (by rw [hr, e])
   have hmem : m.thriftPath ∈ mods.map (·.thriftPath) := List.mem_map_of_mem hm
   obtain ⟨hca, hnm⟩ := hmods m hm
@@ -45,10 +47,7 @@ theorem cli_core_paths_no_dotdot (cwd : Str) (tr : Option Str) (mods : List ModI
     cases tr with
     | none =>
       simp only [cliRoot] at hr
-      refine core_path_of_common_ancestor _ root _ ?_ hr hmem hne hnm
-      intro g hg
-      obtain ⟨m', hm', rfl⟩ := List.mem_map.1 hg
-      exact (hmods m' hm').1
+      exact core_path_of_common_ancestor _ root _ hca hr hmem hne hnm
     | some r =>
       simp only [cliRoot] at hr
       split at hr
@@ -58,20 +57,7 @@ theorem cli_core_paths_no_dotdot (cwd : Str) (tr : Option Str) (mods : List ModI
         exact core_path_of_ancestry _ _ (isAbs_absPath cwd r hcwd) (clean_absPath cwd r hcwd) hca.2 hne
           (verifyAncestry_mem _ _ hv _ hmem) hnm
       · exact absurd hr (by simp)
-  obtain ⟨p', hp', hnd, _⟩ := key
-  rw [hp] at hp'
-  simp only [Option.some.injEq] at hp'
-  subst hp'
-  exact hnd
-
-/-- **C17** end to end: cleaned absolute module paths, none of them the Thrift root itself,
-none with base name "...thrift": every planned write is inside the output directory. -/
-theorem cli_confined_clean_mods (cwd : Str) (tr : Option Str) (out : Str) (mods plugs ord) (ws : Files)
-    (h : cliPlan cwd tr out mods plugs ord = .ok ws) (hcwd : isAbs cwd = true)
-    (hmods : ∀ m ∈ mods, CleanAbs m.thriftPath ∧ NotDotDotName m.thriftPath)
-    (hroot : ∀ m ∈ mods, cliRoot cwd tr mods ≠ some m.thriftPath) :
-    ∀ w ∈ ws, within (clean (absPath cwd out)) w.1 = true :=
-  cli_confined cwd tr out mods plugs ord ws h hcwd
-    (cli_core_paths_no_dotdot cwd tr mods hcwd hmods hroot)
+  obtain ⟨p', hp', _⟩ := key
+  simp [hp']
 
 end ThriftVerif.Proto
